@@ -142,7 +142,7 @@ def _ret_variants(callee):
 BRANCH_MAP = {"Ok": ("Continue", None), "Some": ("Continue", None), "Err": ("Break", ("Err", None)), "None": ("Break", ("None", None))}
 
 
-def _thread_chain(caller, start, tracked):
+def _thread_chain(caller, start, tracked, known_bools=None):
     """Follow the side-effect-free chain of blocks starting at `start`, with `tracked` = {local: (variant, inner)}
     describing values whose enum variant is known on this path.  Blocks are cloned as long as the chain is linear
     and a switch on the discriminant of a tracked value is replaced by a goto to the arm it selects.  Returns the
@@ -152,7 +152,7 @@ def _thread_chain(caller, start, tracked):
     tracked = dict(tracked)
     discr = {}
     refs = {}       # reference local -> tracked local it borrows
-    bools = {}      # bool local -> known value (result of is_ok/is_err/is_some/is_none on a tracked value)
+    bools = dict(known_bools or {})      # bool local -> known value (is_ok/is_err/is_some/is_none of a tracked value, or a literal)
     first = None
     prev = None
     cur = start
@@ -200,11 +200,21 @@ def _thread_chain(caller, start, tracked):
                         val = vt[1]
             elif "discr" in rv and not rv["discr"]["p"] and rv["discr"]["l"] in tracked:
                 dk = (tracked[rv["discr"]["l"]][0], rv.get("variants") or {})
+            elif rv.get("agg") == "adt" and isinstance(rv.get("variant"), str) and not dst["p"]:
+                # a wrapper built on the way (Poll::Ready(x), Ok(x), Some(x)): its variant is known, and so is its payload's
+                inner = None
+                if len(rv.get("ops") or []) == 1:
+                    o = rv["ops"][0].get("move") or rv["ops"][0].get("copy")
+                    if o and not o["p"] and o["l"] in tracked:
+                        inner = tracked[o["l"]]
+                val = (rv["variant"], inner)
             if not dst["p"]:
                 refs.pop(dst["l"], None)
                 bools.pop(dst["l"], None)
                 if "ref" in rv and not rv["ref"]["p"] and rv["ref"]["l"] in tracked:
                     refs[dst["l"]] = rv["ref"]["l"]
+                elif "use" in rv and isinstance(rv["use"].get("const"), dict) and rv["use"]["const"].get("ty") == "bool":
+                    bools[dst["l"]] = bool(rv["use"]["const"].get("v"))
                 elif "use" in rv:
                     src2 = rv["use"].get("move") or rv["use"].get("copy")
                     if src2 and not src2["p"] and src2["l"] in refs:
@@ -529,12 +539,17 @@ def thread_known_variants(body):
             continue
         t = blk["term"]
         known = {}
+        kbools = {}
         for s_ in blk["stmts"]:
             if s_["k"] == "assign" and not s_["place"]["p"]:
                 rv = s_["rv"]
                 known.pop(s_["place"]["l"], None)
+                kbools.pop(s_["place"]["l"], None)
                 if rv.get("agg") == "adt" and rv.get("adt") in ("std::result::Result", "std::option::Option") and isinstance(rv.get("variant"), str):
                     known[s_["place"]["l"]] = (rv["variant"], None)
+                c_ = rv.get("use", {}).get("const") if isinstance(rv.get("use"), dict) else None
+                if c_ is not None and c_.get("ty") == "bool" and c_.get("v") in (0, 1, True, False):
+                    kbools[s_["place"]["l"]] = bool(c_["v"])
         nxt = None
         if t["k"] in ("goto", "false_edge", "drop") and isinstance(t.get("target"), int):
             nxt = t["target"]
@@ -545,9 +560,11 @@ def thread_known_variants(body):
                 known = {t["dest"]["l"]: (v, None)}
                 nxt = t["target"]
         known = {l: v for l, v in known.items() if l != 0}   # the return place is tested by the caller, not here
-        if not known or nxt is None:
+        if t["k"] == "call":
+            kbools = {}
+        if not (known or kbools) or nxt is None:
             continue
-        head = _thread_chain(body, nxt, known)
+        head = _thread_chain(body, nxt, known, kbools)
         if head is not None:
             _redirect(t, nxt, head)
             n += 1
@@ -561,6 +578,55 @@ def _direct_callees(body):
         if t["k"] == "call":
             out.add(t["callee"]["path"])
     return out
+
+
+def devirtualise_polls(raw, paths):
+    """After a generic async helper (`async fn within<F: Future>(.., fut: F)`) is inlined, its `fut.await` is a poll through
+    the type parameter.  Where the polled place is, in the caller, the future returned by an in-crate `async fn`, the poll is
+    that coroutine's poll.  Returns the number of call sites resolved."""
+    bodies = raw["bodies"]
+    n = 0
+    for p in paths:
+        body = bodies.get(p)
+        if body is None:
+            continue
+        for bi, blk in enumerate(body["blocks"]):
+            t = blk["term"]
+            if t["k"] != "call" or t["callee"].get("kind") != "unresolved" or t["callee"]["name"] != "poll" or not t["args"]:
+                continue
+            q = t["args"][0].get("move") or t["args"][0].get("copy")
+            origin = None
+            for _ in range(16):
+                if q is None:
+                    break
+                d = _single_def(body, q["l"])
+                if d is None:
+                    break
+                if d[0] == "assign":
+                    rv = d[2]["rv"]
+                    if "use" in rv:
+                        q = rv["use"].get("move") or rv["use"].get("copy")
+                    elif "ref" in rv:
+                        q = rv["ref"]
+                    else:
+                        break
+                    continue
+                ct = d[2]
+                if ct["callee"]["name"] in ("new_unchecked", "into_future", "as_mut", "deref_mut") and ct["args"]:
+                    q = ct["args"][0].get("move") or ct["args"][0].get("copy")
+                    continue
+                origin = ct
+                break
+            if origin is None:
+                continue
+            fp = origin["callee"]["path"]
+            cp = fp + "::{closure#0}"
+            if fp in bodies and bodies[fp].get("is_async") and cp in bodies and bodies[cp]["kind"] == "coroutine":
+                c = dict(t["callee"])
+                c.update({"path": cp, "kind": "item", "trait": "futures_util::Future", "devirtualised": True})
+                t["callee"] = c
+                n += 1
+    return n
 
 
 def apply(raw, known=None):
